@@ -95,6 +95,17 @@ def shape_nobj(shape):
     return (max(ids) + 1) if ids else 0
 
 
+def shape_has_reuse(shape):
+    """some object starts more than once"""
+    seen = set()
+    for add, rem in shape:
+        for x in add:
+            if x in seen:
+                return True
+            seen.add(x)
+    return False
+
+
 def build_ansistring(c, shape, tag, settings=None, text=None, min_len=0, key_order=None):
     """Engine-level AnsiString with the given table shape.  Returns (obj, info) where info carries the
     symbolic constants (text, keys, setting objects)."""
